@@ -1,4 +1,4 @@
-package main
+package hlib
 
 import (
 	"bytes"
@@ -25,9 +25,9 @@ import (
 	tls "github.com/refraction-networking/utls"
 )
 
-// ---------------------------------------------------------------- JSON helpers (TLC: no null, ints < 2^31)
+// ---------------------------------------------------------------- JSON helpers (TLC: no null, Ints < 2^31)
 
-func ints(b []byte) []int {
+func Ints(b []byte) []int {
 	r := make([]int, len(b))
 	for i, x := range b {
 		r[i] = int(x)
@@ -35,7 +35,7 @@ func ints(b []byte) []int {
 	return r
 }
 
-func unints(v []int) []byte {
+func Unints(v []int) []byte {
 	r := make([]byte, len(v))
 	for i, x := range v {
 		r[i] = byte(x)
@@ -43,7 +43,7 @@ func unints(v []int) []byte {
 	return r
 }
 
-func u16s[T ~uint16](v []T) []int {
+func U16s[T ~uint16](v []T) []int {
 	r := make([]int, len(v))
 	for i, x := range v {
 		r[i] = int(x)
@@ -51,14 +51,14 @@ func u16s[T ~uint16](v []T) []int {
 	return r
 }
 
-func errStr(err error) string {
+func ErrStr(err error) string {
 	if err == nil {
 		return ""
 	}
 	return err.Error()
 }
 
-func seed() int64 {
+func Seed() int64 {
 	s, err := strconv.ParseInt(os.Getenv("VERIF_SEED"), 10, 64)
 	if err != nil {
 		return 1
@@ -66,31 +66,31 @@ func seed() int64 {
 	return s
 }
 
-func newRand(salt int64) *mrand.Rand { return mrand.New(mrand.NewSource(seed()*1000003 + salt)) }
+func NewRand(salt int64) *mrand.Rand { return mrand.New(mrand.NewSource(Seed()*1000003 + salt)) }
 
 // ---------------------------------------------------------------- ClientHelloIDs
 
 // predefined browser parrots (every exported non-alias, non-random ID)
-var parrotIDs = []tls.ClientHelloID{
+var ParrotIDs = []tls.ClientHelloID{
 	tls.HelloFirefox_55, tls.HelloFirefox_56, tls.HelloFirefox_63, tls.HelloFirefox_65, tls.HelloFirefox_99, tls.HelloFirefox_102, tls.HelloFirefox_105, tls.HelloFirefox_120,
 	tls.HelloChrome_58, tls.HelloChrome_62, tls.HelloChrome_70, tls.HelloChrome_72, tls.HelloChrome_83, tls.HelloChrome_87, tls.HelloChrome_96, tls.HelloChrome_100, tls.HelloChrome_102, tls.HelloChrome_106_Shuffle,
 	tls.HelloChrome_100_PSK, tls.HelloChrome_112_PSK_Shuf, tls.HelloChrome_114_Padding_PSK_Shuf, tls.HelloChrome_115_PQ, tls.HelloChrome_115_PQ_PSK, tls.HelloChrome_120, tls.HelloChrome_120_PQ, tls.HelloChrome_131, tls.HelloChrome_133,
 	tls.HelloIOS_11_1, tls.HelloIOS_12_1, tls.HelloIOS_13, tls.HelloIOS_14, tls.HelloAndroid_11_OkHttp, tls.HelloEdge_85, tls.HelloEdge_106, tls.HelloSafari_16_0, tls.Hello360_7_5, tls.Hello360_11_0, tls.HelloQQ_11_1,
 }
 
-var idByName = map[string]tls.ClientHelloID{}
+var IDByName = map[string]tls.ClientHelloID{}
 
 func init() {
-	for _, id := range parrotIDs {
-		idByName[id.Str()] = id
+	for _, id := range ParrotIDs {
+		IDByName[id.Str()] = id
 	}
 	for _, id := range []tls.ClientHelloID{tls.HelloGolang, tls.HelloCustom, tls.HelloRandomized, tls.HelloRandomizedALPN, tls.HelloRandomizedNoALPN} {
-		idByName[id.Str()] = id
+		IDByName[id.Str()] = id
 	}
 }
 
-func lookupID(name string) (tls.ClientHelloID, error) {
-	id, ok := idByName[name]
+func LookupID(name string) (tls.ClientHelloID, error) {
+	id, ok := IDByName[name]
 	if !ok {
 		return id, fmt.Errorf("unknown ClientHelloID %q", name)
 	}
@@ -99,16 +99,16 @@ func lookupID(name string) (tls.ClientHelloID, error) {
 
 // ---------------------------------------------------------------- PKI
 
-type pki struct {
-	pool  *x509.CertPool
-	caKey *ecdsa.PrivateKey
-	ca    *x509.Certificate
-	caDER []byte
+type PKI struct {
+	Pool  *x509.CertPool
+	CAKey *ecdsa.PrivateKey
+	CA    *x509.Certificate
+	CADER []byte
 	n     int64
 	mu    sync.Mutex
 }
 
-func newPKI() *pki {
+func NewPKI() *PKI {
 	k, _ := ecdsa.GenerateKey(elliptic.P256(), rand.Reader)
 	tpl := &x509.Certificate{SerialNumber: big.NewInt(1), Subject: pkix.Name{CommonName: "verif ca"},
 		NotBefore: time.Unix(0, 0), NotAfter: time.Date(2100, 1, 1, 0, 0, 0, 0, time.UTC),
@@ -118,13 +118,13 @@ func newPKI() *pki {
 		panic(err)
 	}
 	ca, _ := x509.ParseCertificate(der)
-	p := &pki{pool: x509.NewCertPool(), caKey: k, ca: ca, caDER: der, n: 1}
-	p.pool.AddCert(ca)
+	p := &PKI{Pool: x509.NewCertPool(), CAKey: k, CA: ca, CADER: der, n: 1}
+	p.Pool.AddCert(ca)
 	return p
 }
 
 // leaf issues a leaf of the given key kind ("ecdsa", "rsa", "ed25519", "ecdsa384") for names, valid [nb, na].
-func (p *pki) leaf(kind string, names []string, nb, na time.Time) tls.Certificate {
+func (p *PKI) Leaf(kind string, names []string, nb, na time.Time) tls.Certificate {
 	p.mu.Lock()
 	p.n++
 	serial := p.n
@@ -132,7 +132,7 @@ func (p *pki) leaf(kind string, names []string, nb, na time.Time) tls.Certificat
 	var priv crypto.Signer
 	switch kind {
 	case "rsa":
-		priv = rsaKey()
+		priv = RSAKey()
 	case "ed25519":
 		_, k, _ := ed25519.GenerateKey(rand.Reader)
 		priv = k
@@ -146,15 +146,15 @@ func (p *pki) leaf(kind string, names []string, nb, na time.Time) tls.Certificat
 	tpl := &x509.Certificate{SerialNumber: big.NewInt(serial), Subject: pkix.Name{CommonName: names[0]}, DNSNames: names,
 		NotBefore: nb, NotAfter: na, KeyUsage: x509.KeyUsageDigitalSignature | x509.KeyUsageKeyEncipherment,
 		ExtKeyUsage: []x509.ExtKeyUsage{x509.ExtKeyUsageServerAuth}}
-	der, err := x509.CreateCertificate(rand.Reader, tpl, p.ca, priv.Public(), p.caKey)
+	der, err := x509.CreateCertificate(rand.Reader, tpl, p.CA, priv.Public(), p.CAKey)
 	if err != nil {
 		panic(err)
 	}
 	return tls.Certificate{Certificate: [][]byte{der}, PrivateKey: priv}
 }
 
-func (p *pki) std(kind string, names ...string) tls.Certificate {
-	return p.leaf(kind, names, time.Now().Add(-time.Hour), time.Now().Add(24*time.Hour))
+func (p *PKI) Std(kind string, names ...string) tls.Certificate {
+	return p.Leaf(kind, names, time.Now().Add(-time.Hour), time.Now().Add(24*time.Hour))
 }
 
 var (
@@ -162,7 +162,7 @@ var (
 	rsaK    *rsa.PrivateKey
 )
 
-func rsaKey() *rsa.PrivateKey {
+func RSAKey() *rsa.PrivateKey {
 	rsaOnce.Do(func() { rsaK, _ = rsa.GenerateKey(rand.Reader, 2048) })
 	return rsaK
 }
@@ -180,32 +180,32 @@ type half struct {
 
 func newHalf() *half { h := &half{}; h.cond = sync.NewCond(&h.mu); return h }
 
-type bufConn struct {
+type BufConn struct {
 	r, w    *half
 	rec     *bytes.Buffer // everything written by this side
 	recMu   sync.Mutex
-	onWrite func(b []byte)
+	OnWrite func(b []byte)
 	name    string
 }
 
-type timeoutErr struct{}
+type TimeoutErr struct{}
 
-func (timeoutErr) Error() string   { return "i/o timeout" }
-func (timeoutErr) Timeout() bool   { return true }
-func (timeoutErr) Temporary() bool { return true }
+func (TimeoutErr) Error() string   { return "i/o timeout" }
+func (TimeoutErr) Timeout() bool   { return true }
+func (TimeoutErr) Temporary() bool { return true }
 
 type pipeAddr string
 
 func (a pipeAddr) Network() string { return "verifpipe" }
 func (a pipeAddr) String() string  { return string(a) }
 
-// bufPipe returns two connected buffered conns (writes never block).
-func bufPipe() (*bufConn, *bufConn) {
+// BufPipe returns two connected buffered conns (writes never block).
+func BufPipe() (*BufConn, *BufConn) {
 	a, b := newHalf(), newHalf()
-	return &bufConn{r: a, w: b, rec: &bytes.Buffer{}, name: "client"}, &bufConn{r: b, w: a, rec: &bytes.Buffer{}, name: "server"}
+	return &BufConn{r: a, w: b, rec: &bytes.Buffer{}, name: "client"}, &BufConn{r: b, w: a, rec: &bytes.Buffer{}, name: "server"}
 }
 
-func (c *bufConn) Read(p []byte) (int, error) {
+func (c *BufConn) Read(p []byte) (int, error) {
 	h := c.r
 	h.mu.Lock()
 	defer h.mu.Unlock()
@@ -222,7 +222,7 @@ func (c *bufConn) Read(p []byte) (int, error) {
 		if !h.rdl.IsZero() {
 			d := time.Until(h.rdl)
 			if d <= 0 {
-				return 0, timeoutErr{}
+				return 0, TimeoutErr{}
 			}
 			t := time.AfterFunc(d, func() { h.mu.Lock(); h.cond.Broadcast(); h.mu.Unlock() })
 			h.cond.Wait()
@@ -233,7 +233,7 @@ func (c *bufConn) Read(p []byte) (int, error) {
 	}
 }
 
-func (c *bufConn) Write(p []byte) (int, error) {
+func (c *BufConn) Write(p []byte) (int, error) {
 	h := c.w
 	h.mu.Lock()
 	if h.closed || h.rclosed {
@@ -242,7 +242,7 @@ func (c *bufConn) Write(p []byte) (int, error) {
 	}
 	if !h.wdl.IsZero() && time.Now().After(h.wdl) {
 		h.mu.Unlock()
-		return 0, timeoutErr{}
+		return 0, TimeoutErr{}
 	}
 	h.buf.Write(p)
 	h.cond.Broadcast()
@@ -250,13 +250,13 @@ func (c *bufConn) Write(p []byte) (int, error) {
 	c.recMu.Lock()
 	c.rec.Write(p)
 	c.recMu.Unlock()
-	if c.onWrite != nil {
-		c.onWrite(p)
+	if c.OnWrite != nil {
+		c.OnWrite(p)
 	}
 	return len(p), nil
 }
 
-func (c *bufConn) Close() error {
+func (c *BufConn) Close() error {
 	c.w.mu.Lock()
 	c.w.closed = true
 	c.w.cond.Broadcast()
@@ -268,7 +268,7 @@ func (c *bufConn) Close() error {
 	return nil
 }
 
-func (c *bufConn) CloseWrite() error {
+func (c *BufConn) CloseWrite() error {
 	c.w.mu.Lock()
 	c.w.closed = true
 	c.w.cond.Broadcast()
@@ -276,20 +276,20 @@ func (c *bufConn) CloseWrite() error {
 	return nil
 }
 
-func (c *bufConn) LocalAddr() net.Addr  { return pipeAddr(c.name) }
-func (c *bufConn) RemoteAddr() net.Addr { return pipeAddr("peer-of-" + c.name) }
-func (c *bufConn) SetDeadline(t time.Time) error {
+func (c *BufConn) LocalAddr() net.Addr  { return pipeAddr(c.name) }
+func (c *BufConn) RemoteAddr() net.Addr { return pipeAddr("peer-of-" + c.name) }
+func (c *BufConn) SetDeadline(t time.Time) error {
 	c.SetReadDeadline(t)
 	return c.SetWriteDeadline(t)
 }
-func (c *bufConn) SetReadDeadline(t time.Time) error {
+func (c *BufConn) SetReadDeadline(t time.Time) error {
 	c.r.mu.Lock()
 	c.r.rdl = t
 	c.r.cond.Broadcast()
 	c.r.mu.Unlock()
 	return nil
 }
-func (c *bufConn) SetWriteDeadline(t time.Time) error {
+func (c *BufConn) SetWriteDeadline(t time.Time) error {
 	c.w.mu.Lock()
 	c.w.wdl = t
 	c.w.mu.Unlock()
@@ -297,55 +297,55 @@ func (c *bufConn) SetWriteDeadline(t time.Time) error {
 }
 
 // Written returns a copy of everything this side wrote so far.
-func (c *bufConn) Written() []byte {
+func (c *BufConn) Written() []byte {
 	c.recMu.Lock()
 	defer c.recMu.Unlock()
 	return append([]byte{}, c.rec.Bytes()...)
 }
 
 // Inject puts bytes into this side's read buffer (as if the peer had written them).
-func (c *bufConn) Inject(p []byte) {
+func (c *BufConn) Inject(p []byte) {
 	c.r.mu.Lock()
 	c.r.buf.Write(p)
 	c.r.cond.Broadcast()
 	c.r.mu.Unlock()
 }
 
-// ---------------------------------------------------------------- TLS record helpers
+// ---------------------------------------------------------------- TLS Record helpers
 
-type record struct {
-	typ     byte
-	vers    uint16
-	payload []byte
+type Record struct {
+	Typ     byte
+	Vers    uint16
+	Payload []byte
 }
 
-// records splits a byte stream into TLS records (incomplete tail ignored).
-func records(b []byte) []record {
-	var out []record
+// Records splits a byte stream into TLS Records (incomplete tail ignored).
+func Records(b []byte) []Record {
+	var out []Record
 	for len(b) >= 5 {
 		n := int(b[3])<<8 | int(b[4])
 		if len(b) < 5+n {
 			break
 		}
-		out = append(out, record{b[0], uint16(b[1])<<8 | uint16(b[2]), b[5 : 5+n]})
+		out = append(out, Record{b[0], uint16(b[1])<<8 | uint16(b[2]), b[5 : 5+n]})
 		b = b[5+n:]
 	}
 	return out
 }
 
-// clientHellos returns the plaintext ClientHello handshake messages found in a client's written stream.
-// ClientHellos are always sent in the clear and (for every size utls produces) in one record each.
-func clientHellos(stream []byte) [][]byte {
+// ClientHellos returns the plaintext ClientHello handshake messages found in a client's written stream.
+// ClientHellos are always sent in the clear and (for every size utls produces) in one Record each.
+func ClientHellos(stream []byte) [][]byte {
 	var out [][]byte
 	var acc []byte
-	for _, r := range records(stream) {
-		if r.typ != 22 {
-			if len(out) > 0 && r.typ == 23 {
+	for _, r := range Records(stream) {
+		if r.Typ != 22 {
+			if len(out) > 0 && r.Typ == 23 {
 				break
 			}
 			continue
 		}
-		acc = append(acc, r.payload...)
+		acc = append(acc, r.Payload...)
 		for len(acc) >= 4 {
 			n := int(acc[1])<<16 | int(acc[2])<<8 | int(acc[3])
 			if len(acc) < 4+n {
@@ -364,151 +364,151 @@ func clientHellos(stream []byte) [][]byte {
 
 // ---------------------------------------------------------------- generic handshake runner
 
-type hsResult struct {
-	cerr, serr   error
-	cpanic       string
-	cs, ss       tls.ConnectionState
-	uc           *tls.UConn
-	srv          *tls.Conn
-	cwire, swire []byte
-	echoOK       bool
-	cEKM, sEKM   [][]byte
+type HSResult struct {
+	CErr, SErr   error
+	CPanic       string
+	CS, SS       tls.ConnectionState
+	UC           *tls.UConn
+	Srv          *tls.Conn
+	CWire, SWire []byte
+	EchoOK       bool
+	CEKM, SEKM   [][]byte
 }
 
-type hsOpts struct {
-	prep      func(*tls.UConn) error // after UClient, before Handshake
-	timeout   time.Duration
-	echo      []int // sizes echoed client->server->client
-	ekm       []ekmReq
-	afterBoth func(r *hsResult, uc *tls.UConn, srv *tls.Conn)
-	keepOpen  bool
+type HSOpts struct {
+	Prep      func(*tls.UConn) error // after UClient, before Handshake
+	Timeout   time.Duration
+	Echo      []int // sizes echoed client->server->client
+	EKM       []EKMReq
+	AfterBoth func(r *HSResult, uc *tls.UConn, srv *tls.Conn)
+	KeepOpen  bool
 }
 
-type ekmReq struct {
+type EKMReq struct {
 	Label   string
 	Context []byte
 	Len     int
 }
 
-var errPrep = errors.New("prep failed")
+var ErrPrep = errors.New("prep failed")
 
-// runHandshake runs one UConn against one tls.Server over a buffered pipe.
-func runHandshake(ccfg, scfg *tls.Config, id tls.ClientHelloID, o hsOpts) (r hsResult) {
-	if o.timeout == 0 {
-		o.timeout = 5 * time.Second
+// RunHandshake runs one UConn against one tls.Server over a buffered pipe.
+func RunHandshake(ccfg, scfg *tls.Config, id tls.ClientHelloID, o HSOpts) (r HSResult) {
+	if o.Timeout == 0 {
+		o.Timeout = 5 * time.Second
 	}
-	c, s := bufPipe()
-	dl := time.Now().Add(o.timeout)
+	c, s := BufPipe()
+	dl := time.Now().Add(o.Timeout)
 	c.SetDeadline(dl)
 	s.SetDeadline(dl)
 	srv := tls.Server(s, scfg)
-	r.srv = srv
+	r.Srv = srv
 	done := make(chan struct{})
 	sdata := make(chan struct{})
 	go func() {
 		defer close(done)
 		defer func() {
 			if p := recover(); p != nil {
-				r.serr = fmt.Errorf("server panic: %v", p)
+				r.SErr = fmt.Errorf("server panic: %v", p)
 			}
 		}()
-		r.serr = srv.Handshake()
-		if r.serr == nil {
-			r.ss = srv.ConnectionState()
-			for _, q := range o.ekm {
-				b, err := r.ss.ExportKeyingMaterial(q.Label, q.Context, q.Len)
+		r.SErr = srv.Handshake()
+		if r.SErr == nil {
+			r.SS = srv.ConnectionState()
+			for _, q := range o.EKM {
+				b, err := r.SS.ExportKeyingMaterial(q.Label, q.Context, q.Len)
 				if err != nil {
 					b = []byte("ERR:" + err.Error())
 				}
-				r.sEKM = append(r.sEKM, b)
+				r.SEKM = append(r.SEKM, b)
 			}
-			for _, n := range o.echo {
+			for _, n := range o.Echo {
 				buf := make([]byte, n)
 				if _, err := io.ReadFull(srv, buf); err != nil {
-					r.serr = fmt.Errorf("server echo read: %w", err)
+					r.SErr = fmt.Errorf("server echo read: %w", err)
 					break
 				}
 				if _, err := srv.Write(buf); err != nil {
-					r.serr = fmt.Errorf("server echo write: %w", err)
+					r.SErr = fmt.Errorf("server echo write: %w", err)
 					break
 				}
 			}
 		}
 		<-sdata
-		if !o.keepOpen {
+		if !o.KeepOpen {
 			s.Close()
 		}
 	}()
 	uc := tls.UClient(c, ccfg, id)
-	r.uc = uc
+	r.UC = uc
 	func() {
 		defer func() {
 			if p := recover(); p != nil {
-				r.cpanic = fmt.Sprint(p)
-				r.cerr = fmt.Errorf("client panic: %v", p)
+				r.CPanic = fmt.Sprint(p)
+				r.CErr = fmt.Errorf("client panic: %v", p)
 			}
 		}()
-		if o.prep != nil {
-			if err := o.prep(uc); err != nil {
-				r.cerr = fmt.Errorf("%w: %v", errPrep, err)
+		if o.Prep != nil {
+			if err := o.Prep(uc); err != nil {
+				r.CErr = fmt.Errorf("%w: %v", ErrPrep, err)
 				return
 			}
 		}
-		r.cerr = uc.Handshake()
-		if r.cerr == nil {
-			r.cs = uc.ConnectionState()
-			for _, q := range o.ekm {
-				b, err := r.cs.ExportKeyingMaterial(q.Label, q.Context, q.Len)
+		r.CErr = uc.Handshake()
+		if r.CErr == nil {
+			r.CS = uc.ConnectionState()
+			for _, q := range o.EKM {
+				b, err := r.CS.ExportKeyingMaterial(q.Label, q.Context, q.Len)
 				if err != nil {
 					b = []byte("ERR:" + err.Error())
 				}
-				r.cEKM = append(r.cEKM, b)
+				r.CEKM = append(r.CEKM, b)
 			}
-			r.echoOK = true
-			for i, n := range o.echo {
+			r.EchoOK = true
+			for i, n := range o.Echo {
 				msg := make([]byte, n)
 				for j := range msg {
 					msg[j] = byte(j*7 + i)
 				}
 				if _, err := uc.Write(msg); err != nil {
-					r.cerr = fmt.Errorf("echo write: %w", err)
-					r.echoOK = false
+					r.CErr = fmt.Errorf("echo write: %w", err)
+					r.EchoOK = false
 					break
 				}
 				buf := make([]byte, n)
 				if _, err := io.ReadFull(uc, buf); err != nil {
-					r.cerr = fmt.Errorf("echo read: %w", err)
-					r.echoOK = false
+					r.CErr = fmt.Errorf("echo read: %w", err)
+					r.EchoOK = false
 					break
 				}
 				if !bytes.Equal(buf, msg) {
-					r.echoOK = false
+					r.EchoOK = false
 				}
 			}
 		}
 	}()
-	if r.cerr != nil {
+	if r.CErr != nil {
 		c.Close()
 	}
 	close(sdata)
-	if r.cerr != nil || !o.keepOpen {
+	if r.CErr != nil || !o.KeepOpen {
 		<-done
 	} else {
 		<-done
 	}
-	if o.afterBoth != nil && r.cerr == nil && r.serr == nil {
-		o.afterBoth(&r, uc, srv)
+	if o.AfterBoth != nil && r.CErr == nil && r.SErr == nil {
+		o.AfterBoth(&r, uc, srv)
 	}
-	if !o.keepOpen {
+	if !o.KeepOpen {
 		c.Close()
 	}
-	r.cwire = c.Written()
-	r.swire = s.Written()
+	r.CWire = c.Written()
+	r.SWire = s.Written()
 	return
 }
 
-// parallel runs fn(i) for i in [0,n) on all cores.
-func parallel(n int, fn func(i int)) {
+// Parallel runs fn(i) for i in [0,n) on all cores.
+func Parallel(n int, fn func(i int)) {
 	w := runtime.NumCPU()
 	if w > n {
 		w = n
